@@ -1,6 +1,6 @@
 """C20 Introspection reports the true number of links and counts every message."""
 from mirlib import describe_rvalue, describe_place, AnchorMissing, describe_call, describe_operand, dom_guards, guards, _suffix_match
-from rules.common import named_argument_rule, aggregates, callers_by_name, calls_on_field, owner_def, where
+from rules.common import callback_calls, named_argument_rule, aggregates, callers_by_name, calls_on_field, owner_def, where
 
 META = {
     "explanation": (
@@ -27,6 +27,14 @@ def discharge_none(body, adt, field):
     for sw, some, none in body.option_edges_on_field(adt, field):
         if none is not None and some is not None and none != some:
             out.append((sw, none))
+    # (the same test made on a captured reference to the field, in a closure)
+    from mirlib import switch_desc
+    for si in body.switches_on(lambda p, si: si.get("kind") == "disc"):
+        d = switch_desc(body, si["block"]) or ""
+        if d.rstrip(")").endswith(field):
+            ve = body.variant_edges(si["block"]) or {}
+            if "None" in ve and "Some" in ve and (si["block"], ve["None"]) not in out:
+                out.append((si["block"], ve["None"]))
     return out
 
 
@@ -124,11 +132,34 @@ def run(ctx):
     with ctx.rule("C20.R2", "T2", "every Links method that changes a LaneLinks re-publishes the aggregate from total_count; forward/backwards move together", floor=8) as r:
         for nm in ("insert", "remove", "remove_lane", "remove_remote"):
             b = ctx.saw(rt.fn(name=nm, self_adt=LK))
-            muts = [c for c in b.calls if _suffix_match(c.callee.get("self_adt"), LL) and c.name in ("insert", "remove", "take_remotes")]
-            if not muts:
-                raise AnchorMissing("Links::%s: no LaneLinks mutation call" % nm)
+            def is_mut(c):
+                return _suffix_match(c.callee.get("self_adt"), LL) and c.name in ("insert", "remove", "take_remotes")
+            muts = [c for c in b.calls if is_mut(c)]
             su = [c for c in b.calls if c.is_method(REP, "set_uplinks")]
             dis = discharge_none(b, LK, "aggregate_reporter")
+            # a mutation made in a closure handed to an adapter (`forward.remove(&id).map(|mut lane_links| { lane_links.take_remotes(..); publish(..) })`):
+            # judged inside the closure when the closure publishes itself, at the adapter's call site otherwise
+            in_closure = []
+            for site_blk, x in callback_calls(rt, b):
+                if is_mut(x):
+                    in_closure.append((site_blk, x))
+            if not muts and not in_closure:
+                raise AnchorMissing("Links::%s: no LaneLinks mutation call" % nm)
+            for site_blk, m in in_closure:
+                cb = m.body
+                su_cb = [c for c in cb.calls if c.is_method(REP, "set_uplinks")]
+                if su_cb:
+                    ok, wit = cb.must_pass_edges(cb.succ[m.block], {c.block for c in su_cb}, discharge_none(cb, LK, "aggregate_reporter"))
+                else:
+                    ok, wit = b.must_pass_edges(b.succ[site_blk], {c.block for c in su}, dis)
+                r.check(ok and bool(su_cb or su), "%s/%s=>aggregate" % (nm, m.name), m.loc(), "after LaneLinks::%s the aggregate reporter is updated on every path" % m.name,
+                        "LaneLinks::%s can be followed by return without aggregate set_uplinks: %s" % (m.name, wit))
+                tc = describe_operand(cb, m.args[-1])
+                r.check(tc.endswith("total_count"), "%s/%s/shared-total" % (nm, m.name), m.loc(), "the shared total_count is passed (%s)" % tc, "LaneLinks::%s is not given self.total_count: %s" % (m.name, tc))
+                for c in su_cb:
+                    d = describe_operand(cb, c.args[1])
+                    rec = describe_operand(cb, c.args[0])
+                    r.check(d.endswith("total_count") and "aggregate_reporter" in rec, "%s/aggregate-arg" % nm, c.loc(), "aggregate.set_uplinks(total_count)", "aggregate set_uplinks(%s) on %s" % (d, rec))
             for m in muts:
                 ok, wit = b.must_pass_edges(b.succ[m.block], {c.block for c in su}, dis)
                 r.check(ok and bool(su), "%s/%s=>aggregate" % (nm, m.name), m.loc(), "after LaneLinks::%s the aggregate reporter is updated on every path" % m.name,
@@ -212,9 +243,16 @@ def run(ctx):
         if loads and cas:
             cur = describe_operand(sv, cas[0].args[1])
             new = describe_operand(sv, cas[0].args[2])
-            r.check(cur.startswith("load(") and new == "0", "snapshot_value/cas-operands", cas[0].loc(), "compare_exchange(observed value, 0)", "compare_exchange(%s, %s)" % (cur, new))
-            ret = [describe_operand(sv, rv[1]) for i, j, p, rv, line in sv.assigns() if p[0] == 0 and not p[1] and rv[0] == "use"]
-            r.check(ret and all(x.startswith("load(") for x in ret), "snapshot_value/returns-observed", where(sv), "the value returned is the one the CAS replaced", "snapshot_value returns %s" % ret)
+            def observed(op):
+                """the operand is a value read from the counter: by the load, or handed back by the failed exchange (`Err(actual)`)"""
+                srcs = sv.sources(op)
+                calls_ = [x[1] for x in srcs if x[0] == "call"]
+                return bool(calls_) and all(c_.name == "load" or c_ is cas[0] for c_ in calls_) and not any(x[0] in ("const", "bin", "un", "arg") for x in srcs)
+            r.check(observed(cas[0].args[1]) and new == "0", "snapshot_value/cas-operands", cas[0].loc(), "compare_exchange(observed value, 0)", "compare_exchange(%s, %s)" % (cur, new))
+            rets = [rv[1] for i, j, p, rv, line in sv.assigns() if p[0] == 0 and not p[1] and rv[0] == "use"]
+            # the value handed back is the expected operand of the exchange that succeeded
+            same = all(describe_operand(sv, o) == cur or (observed(o) and sv.copy_root(o) == sv.copy_root(cas[0].args[1])) for o in rets)
+            r.check(bool(rets) and same, "snapshot_value/returns-observed", where(sv), "the value returned is the one the CAS replaced", "snapshot_value returns %s" % [describe_operand(sv, o) for o in rets])
             # the loop only exits on CAS success
             oks = [c for c in sv.calls if c.name == "is_ok"]
             if oks:
